@@ -54,7 +54,11 @@ def gen_case(rng, mode, corrupt):
             ws[-1] = ws[-1][:9] + b"\x00"
         if fmt == 2 and len(ws) > 1 and ws[1][:6] == b"\x00" * 6:
             ws[1] = b"\x01" + ws[1][1:]
-        r, p = itsgen.packet(ws, fmt=fmt, ff=None if fmt == 2 else 0, orbit=1, pages=pg, stop=0, fee=0x502A, link=3)
+        # the RDH's page counter / stop bit are not inputs of the word classification: any values, in particular a packet that
+        # claims to open a heartbeat frame (page 0, no stop) while the state machine is in the middle of one
+        pages = rng.choice([pg, pg, 0, 0, rng.randrange(4)])
+        stop = rng.choice([0, 0, 0, 1])
+        r, p = itsgen.packet(ws, fmt=fmt, ff=None if fmt == 2 else 0, orbit=1, pages=pages, stop=stop, fee=0x502A, link=3)
         pkts.append((off, r, p))
         meta.append((off, 16 if fmt == 0 else 10, ws))
         off += 64 + len(p)
